@@ -285,11 +285,25 @@ func isExportedName(n string) bool { return n != "" && n[0] >= 'A' && n[0] <= 'Z
 func (la *lockAnalysis) classify() {
 	p := la.p
 	valueUse := map[*ssa.Function]bool{}
+	iterCalled := map[*ssa.Function]bool{} // literals returned by an iterator constructor and called by its callers
 	for _, f := range p.Funcs {
 		instrsOf(f, func(in ssa.Instruction) {
 			if ci, ok := in.(ssa.CallInstruction); ok {
 				if sc := ci.Common().StaticCallee(); sc != nil && p.InUniverse(sc) {
+					// a call of an instance of a generic function is a call of the generic body that is analysed
+					if o := sc.Origin(); o != nil && o != sc && p.InUniverse(o) {
+						sc = o
+					}
 					la.sites[sc] = append(la.sites[sc], ci)
+				} else if sc == nil && !ci.Common().IsInvoke() {
+					// a call of what an iterator constructor returned (`for x := range h.stored(a, b)`): the returned
+					// literal runs here
+					for _, lit := range p.returnedLiterals(ci.Common().Value) {
+						if p.InUniverse(lit) && lit.Parent() != nil {
+							la.sites[lit] = append(la.sites[lit], ci)
+							iterCalled[lit] = true
+						}
+					}
 				}
 			}
 			// function values used other than as the callee
@@ -319,7 +333,13 @@ func (la *lockAnalysis) classify() {
 				if ci, ok := in.(*ssa.Call); ok && fn.Parent() != nil {
 					// handed to a repository helper that calls its function parameter (withLock(func(){…}), a
 					// visitor): the literal runs where the helper calls that parameter, with the locks held there
-					if sc := ci.Call.StaticCallee(); sc != nil && p.InUniverse(sc) && sc.Blocks != nil {
+					sc := ci.Call.StaticCallee()
+					if sc == nil && !ci.Call.IsInvoke() {
+						if lits := p.returnedLiterals(ci.Call.Value); len(lits) == 1 {
+							sc = lits[0] // the body of a range-over-func loop handed to the iterator
+						}
+					}
+					if sc != nil && p.InUniverse(sc) && sc.Blocks != nil {
 						var inner []ssa.CallInstruction
 						for k, a := range ci.Call.Args {
 							if a != *op || k >= len(sc.Params) {
@@ -348,6 +368,51 @@ func (la *lockAnalysis) classify() {
 				}
 			}
 		})
+	}
+	// an iterator literal that leaves its constructor only as the constructor's result, every call of which is
+	// consumed on the spot (called or ranged over), runs only at those calls
+	for lit := range iterCalled {
+		g := lit.Parent()
+		onlyReturned := true
+		instrsOf(g, func(in ssa.Instruction) {
+			mc, ok := in.(*ssa.MakeClosure)
+			if !ok || mc.Fn != ssa.Value(lit) || mc.Referrers() == nil {
+				return
+			}
+			var check func(v ssa.Value)
+			check = func(v ssa.Value) {
+				for _, r := range *v.Referrers() {
+					switch r := r.(type) {
+					case *ssa.Return, *ssa.DebugRef:
+					case *ssa.ChangeType:
+						check(r)
+					default:
+						onlyReturned = false
+					}
+				}
+			}
+			check(mc)
+		})
+		sites, closed := p.staticCallSites(g)
+		consumed := closed && onlyReturned
+		for _, cs := range sites {
+			v := cs.Value()
+			if v == nil || v.Referrers() == nil {
+				consumed = false
+				continue
+			}
+			for _, r := range *v.Referrers() {
+				if _, isDbg := r.(*ssa.DebugRef); isDbg {
+					continue
+				}
+				if c2, ok := r.(ssa.CallInstruction); !ok || c2.Common().Value != v {
+					consumed = false
+				}
+			}
+		}
+		if consumed {
+			valueUse[lit] = false
+		}
 	}
 	for _, f := range p.Funcs {
 		if f.Parent() != nil {
